@@ -71,10 +71,35 @@ US_PARSED = ["meter", "m", "km", "kilometer", "yard", "foot", "ft", "inch", "mil
              "km/hour", "mile/hour", "meter**2/second", "kilogram", "pound", "gram", "kph", "hertz", "joule", "kelvin", "brontometer",
              "dimensionless", ""]
 US_RAW = [s for s in US_PARSED if s != "dimensionless"]
-PARSE_ONLY = ["degC", "degC/hour", "kilodegC", "nosuchunit", "kiloblip", "millikilosmoot", "thousandmeter", "tinysecond", "Brm"]
+PARSE_ONLY = ["degC", "degC/hour", "kilodegC", "nosuchunit", "kiloblip", "millikilosmoot", "thousandmeter", "tinysecond", "Brm", "blip/millisecond"]
 SHADOW = ["dam"]          # used by the directed shadowing histories only
 ALL_STRINGS = US_PARSED + PARSE_ONLY + SHADOW      # extended below by the spellings of CI
-FORMATS = ["", "~", "P", "~P", "C", "D", "H", "L"]
+FORMATS = ["", "~", "P", "~P", "C", "D", "H", "L", "c13x", "~c13x"]
+CUSTOM_SPEC = "c13x"
+
+
+def register_custom_format():
+    """one custom unit format, registered once per process (before anything is fork()ed): it renders
+    every name with the dimensionality the registry it is handed gives it, so that formatting with
+    another registry's definitions shows"""
+    import pint
+    from pint.delegates.formatter._spec_helpers import REGISTERED_FORMATTERS
+    if CUSTOM_SPEC in REGISTERED_FORMATTERS:
+        return
+
+    @pint.register_unit_format(CUSTOM_SPEC)
+    def _format_c13x(unit, registry, **options):
+        parts = []
+        for name, exp in sorted(unit.items()):
+            if registry is None:
+                dim = "no-registry"
+            else:
+                try:
+                    dim = "*".join(f"{k}^{v}" for k, v in sorted(registry.get_dimensionality(name).items()))
+                except Exception as e:      # noqa: BLE001
+                    dim = "raises " + type(e).__name__
+            parts.append(f"{name}^{exp}<{dim}>")
+        return " ".join(parts)
 # case-insensitive questions (oracle only): (ordinary spelling that may have been looked up before, other letter case)
 CI = [("kiloinch", "KILOINCH"), ("kiloinch", "Kiloinch"), ("millisecond", "MILLISECOND"), ("kilometer", "KiloMeter"),
       ("meter", "METER"), ("inch", "Inch"), ("kilosmoot", "KILOSMOOT"), ("microfoot", "MICROFOOT")]
@@ -512,11 +537,14 @@ def run_history(ops):
     return forked(child)
 
 
-def explore(alphabet, depth, prefix):
+def explore(alphabet, depth, prefix, precreate=False):
     """all histories prefix + (<= depth-len(prefix) further ops), as a tree; fork() at every node.
-    Returns the tree below prefix: list of nodes (op, r, ans, before, qunits, kids)"""
+    Returns the tree below prefix: list of nodes (op, r, ans, before, qunits, kids).
+    precreate: the second registry exists from the start (built once, not at every first use)"""
     def child():
         w = World(BASE)
+        if precreate:
+            w.regs[1] = new_registry()
         recs = []
         for op in prefix:
             r = 1 if op[0] in ("other", "mkother") else 0
@@ -866,6 +894,11 @@ def isolation_histories():
                ("other", ("compat", "meter")), ("other", ("setsys", "cgs")), ("other", ("base", "meter", None)), ("base", "meter", None)])
     hs.append([("qnew", "meter"), ("qdim",), ("mkother",), ("other", ("qnew", "second")), ("other", ("qdim",)), ("qdim",),
                ("parse", "kiloinch"), ("other", ("parse", "millikiloinch"))])
+    # formatting (custom process-wide spec and built-in specs) in two registries with different definitions
+    for spec in ["~c13x", "c13x", "~P", "", "~"]:
+        for u in ["blip", "blip/millisecond", "kiloblip"]:
+            hs.append([("define", "blip"), ("fmt", u, spec), ("mkother",), ("other", ("define", "blip_t")), ("other", ("fmt", u, spec)),
+                       ("fmt", u, spec), ("qfmt", u, "3", spec), ("other", ("fmt", u, spec))])
     # case-insensitive lookup after an ordinary lookup of the same prefixed unit
     for w, q in CI:
         hs.append([("parse", w), ("parse_ci", q), ("convert", w, "meter"), ("parse_ci", q)])
@@ -893,6 +926,14 @@ RULES_ALPHABET = [("enable", "sp"), ("enable", "boltzmann"), ("enable", "energy"
 COMPACT_ALPHABET = [("compact", "meter", "1500"), ("compact", "meter", "2e35"), ("compact", "second", "3e-32"),
                     ("compact", "smoot", "5000"), ("define", "bronto"), ("define", "tiny"), ("define", "thousand"),
                     ("define", "smoot"), ("convert", "brontometer", "meter")]
+
+
+# two registries with DIFFERENT definitions of blip, formatting with the custom (process-wide) spec
+# and a built-in one in turn; compared with the fresh registry only
+FORMAT2_ALPHABET = [("define", "blip"), ("other", ("define", "blip_t")),
+                    ("fmt", "blip", "~c13x"), ("other", ("fmt", "blip", "~c13x")),
+                    ("fmt", "blip/millisecond", "~c13x"), ("other", ("fmt", "kiloinch", "c13x")),
+                    ("qfmt", "blip", "3", "~P")]
 
 
 WITNESSES = {
@@ -1162,6 +1203,7 @@ def run(ck):
     ok = ck.coq_build(["Properties/C13.vo", "Model/CacheRun.vo", "Gen/DefaultReg.vo"])
 
     t0 = time.time()
+    register_custom_format()
     klass, tk = forked(classify_strings)
     systems = forked(system_tables)
     BASE = new_registry()          # never queried in this process
@@ -1221,6 +1263,8 @@ def _run(ck, rng, thorough, klass, tk, systems, fresh, chk, coq_ok):
     trees_b = parallel(lambda pre: explore(alpha_b, depth_b, pre), roots_b)
     depth_r = 5 if thorough else 4
     trees_r = parallel(lambda op: explore(RULES_ALPHABET, depth_r, [op]), RULES_ALPHABET)
+    depth_f = 5 if thorough else 4
+    trees_f = parallel(lambda op: explore(FORMAT2_ALPHABET, depth_f, [op], precreate=True), FORMAT2_ALPHABET)
     depth_c = 4 if thorough else 3
     trees_c = parallel(lambda op: explore(COMPACT_ALPHABET, depth_c, [op]), COMPACT_ALPHABET)
     T["exhaustive"] = time.time()
@@ -1258,13 +1302,20 @@ def _run(ck, rng, thorough, klass, tk, systems, fresh, chk, coq_ok):
         p = precs[0]
         flat.append(([op0], p[1], p[2], p[3], p[4]))
         flatten_tree([op0], kids, flat)
+    n_compact = len(flat) - n_general - n_base - n_rules
+    for op0, (precs, kids) in zip(FORMAT2_ALPHABET, trees_f):
+        p = precs[0]
+        flat.append(([op0], p[1], p[2], p[3], p[4]))
+        flatten_tree([op0], kids, flat)
     ck.extra["exhaustive_histories"] = len(flat)
     ck.extra["exhaustive_depth"] = {"12-op alphabet": depth, f"{len(alpha_b)}-op base-units alphabet": depth_b,
                                     "8-op rule-contexts alphabet (oracle only)": depth_r,
-                                    "9-op to_compact x definitions alphabet (oracle only)": depth_c}
+                                    "9-op to_compact x definitions alphabet (oracle only)": depth_c,
+                                    "7-op two-registry formatting alphabet (oracle only)": depth_f}
     ck.extra["exhaustive_histories_by_alphabet"] = {"12-op alphabet": n_general, f"{len(alpha_b)}-op base-units alphabet": n_base,
                                                     "8-op rule-contexts alphabet (oracle only)": n_rules,
-                                                    "9-op to_compact x definitions alphabet (oracle only)": len(flat) - n_general - n_base - n_rules}
+                                                    "9-op to_compact x definitions alphabet (oracle only)": n_compact,
+                                                    "7-op two-registry formatting alphabet (oracle only)": len(flat) - n_general - n_base - n_rules - n_compact}
     for h, rr, ans, before, qu in flat:
         inner = h[-1][1] if h[-1][0] == "other" else h[-1]
         q = oracle_question(inner, qu)
@@ -1364,6 +1415,7 @@ def replay(ck, path):
     h = [tuple(tuple(x) if isinstance(x, list) else x for x in o) for o in rp.get("replay", {}).get("history", [])]
     if not h:
         return 0
+    register_custom_format()
     klass, tk = forked(classify_strings)
     BASE = new_registry()
     fresh = Fresh()
